@@ -10,9 +10,10 @@
 //   - locks held by *every* caller at *every* call site are inherited by the callee (intersection over the
 //     package's call graph; calls through an interface or an unresolved receiver go to every method of
 //     that name);
-//   - a field whose type synchronises internally (sync.Map, a golang-set built by the thread-safe
-//     constructors) is accessed under the pseudo lock "self:<Struct>.<field>"; the pseudo lock disappears
-//     when the field is ever assigned set.NewThreadUnsafeSet*.
+//   - RLock holds the mutex in shared mode: it counts for the reads in the region, not for writes;
+//   - a field whose type synchronises internally (sync.Map, sync/atomic values, a golang-set built by the
+//     thread-safe constructors) is accessed under the pseudo lock "self:<Struct>.<field>"; the pseudo lock
+//     disappears when the field is ever assigned set.NewThreadUnsafeSet*.
 //
 // Every function also gets the set of goroutine classes that may execute it (reachability from the roots
 // listed in rootClasses; `go` statements start a class of their own) and a phase: "init" (only reachable
@@ -104,6 +105,7 @@ var unsafeSetCtors = map[string]bool{"NewThreadUnsafeSet": true, "NewThreadUnsaf
 var stringerNames = map[string]bool{"String": true, "Error": true}
 
 var setWriters = map[string]bool{"Add": true, "Remove": true, "Pop": true, "Clear": true}
+var atomicWriters = map[string]bool{"Add": true, "Store": true, "Swap": true, "CompareAndSwap": true, "And": true, "Or": true}
 var syncMapWriters = map[string]bool{"Store": true, "Delete": true, "LoadOrStore": true, "LoadAndDelete": true,
 	"Swap": true, "CompareAndSwap": true, "CompareAndDelete": true, "Clear": true}
 
@@ -526,6 +528,9 @@ func (a *analyzer) call(c *ast.CallExpr, st *state, deferred bool) {
 			switch {
 			case rt == "sync.Mutex" || rt == "sync.RWMutex":
 				name := a.lockName(f.X, st)
+				if f.Sel.Name == "RLock" || f.Sel.Name == "RUnlock" {
+					name += "#r" // held in shared mode: protects reads only (see the normalisation of the rows)
+				}
 				switch f.Sel.Name {
 				case "Lock", "RLock":
 					if !has(st.held, name) {
@@ -545,11 +550,14 @@ func (a *analyzer) call(c *ast.CallExpr, st *state, deferred bool) {
 				return
 			case rt == "sync.Once" || rt == "sync.WaitGroup":
 				// Do(f): the closure is analysed in place below
-			case rt == "sync.Map" || rt == "set.Set":
+			case rt == "sync.Map" || rt == "set.Set" || strings.HasPrefix(rt, "atomic."):
 				if key, t := a.fieldKey(f.X, st); key != "" {
 					rw := "R"
 					pseudo := "self:" + key
 					if rt == "sync.Map" && syncMapWriters[f.Sel.Name] {
+						rw = "W"
+					}
+					if strings.HasPrefix(rt, "atomic.") && atomicWriters[f.Sel.Name] {
 						rw = "W"
 					}
 					if rt == "set.Set" {
@@ -1242,7 +1250,20 @@ func main() {
 
 	for i := range a.rows {
 		r := &a.rows[i]
-		r.Locks = union(r.Locks, entry[r.Func])
+		// a lock held in shared mode (RLock) excludes writers only: it protects a read, not a write
+		all := union(r.Locks, entry[r.Func])
+		r.Locks = []string{}
+		for _, l := range all {
+			if strings.HasSuffix(l, "#r") {
+				if r.RW == "W" {
+					continue
+				}
+				l = strings.TrimSuffix(l, "#r")
+			}
+			if !has(r.Locks, l) {
+				r.Locks = append(r.Locks, l)
+			}
+		}
 		sort.Strings(r.Locks)
 		cs := []class{}
 		for c := range classes[r.Func] {
